@@ -96,7 +96,7 @@ def make_problem(rs, n, cplx, gk, kind):
     else:
         Q1, _ = np.linalg.qr(rs.randn(n, n) + (1j * rs.randn(n, n) if cplx else 0))
         Q2, _ = np.linalg.qr(rs.randn(n, n) + (1j * rs.randn(n, n) if cplx else 0))
-        cmax = 10 ** rs.uniform(0.5, 2) if kind == "random" else rs.uniform(1.5, 5.0)   # "wellcond": the budgeted convergence clause
+        cmax = {"random": 10 ** rs.uniform(0.5, 2), "illcond": 10 ** 1.5}.get(kind, rs.uniform(1.5, 5.0))   # "wellcond": the budgeted convergence clause; "illcond": singular values up to 10^1.5 (cond of A^H A = 1e3)
         sv = np.exp(rs.uniform(0, np.log(cmax), n))
         A = (Q1 * sv) @ Q2.conj().T
     xs = rs.randn(n) + (1j * rs.randn(n) if cplx else 0)
@@ -138,8 +138,13 @@ def record_gm(sp, rs, k):
     gk = str(rs.choice(["none", "l1", "l2", "box"]))
     cplx = bool(rs.rand() < 0.4) and gk != "box"
     kind = "nesterov" if rs.rand() < 0.3 else "random"
-    A, xs, y, lam = make_problem(rs, n, cplx, gk, kind)
     acc = bool(rs.rand() < 0.5)
+    forced = None
+    if k < 4:
+        # always present: the ill-conditioned worst cases on which the O(1/k^2) bound is tight over long runs
+        n, gk, cplx, kind, acc = [(40, "none", False, "nesterov", True), (30, "l1", False, "illcond", True), (40, "none", False, "nesterov", False), (30, "l1", True, "illcond", True)][k]
+        forced = 400
+    A, xs, y, lam = make_problem(rs, n, cplx, gk, kind)
     L = np.linalg.norm(A, 2) ** 2
     alpha = 1.0 / L / float(rs.choice([1.0, 1.0, 2.0]))
     F = lambda v: 0.5 * np.linalg.norm(A @ v - y) ** 2 + gval(gk, lam, v)
@@ -148,7 +153,10 @@ def record_gm(sp, rs, k):
     x = x0.copy()
     D2 = np.linalg.norm(x0 - xs) ** 2
     Leff = 1.0 / alpha
-    K = int(rs.choice([30, 80, 200]))
+    K = int(rs.choice([30, 80, 200])) if forced is None else forced
+    if forced is not None:
+        alpha = 1.0 / L
+        Leff = L
     alg = sp.alg.GradientMethod(lambda v: A.conj().T @ (A @ v - y), x, alpha, proxg=make_prox(sp, gk, lam, n), accelerate=acc, max_iter=K, tol=0)
     ev = []
     Fprev = F(x)
